@@ -49,6 +49,7 @@ from fractions import Fraction as F
 import common
 from common import err_kind
 import props.c02_tr as tr
+import props.c02_hist as hist
 
 ID = "C02"
 RULE = ("every registry stage x >=3 parameter sets x 3 source modes (finite+slack, exact+trip-wire, endless), "
@@ -1027,6 +1028,14 @@ PARAMS = {
     "comb.fb": {"delay": "scalar", "alpha": "aux"}, "comb.tau": {"delay": "scalar", "tau": "aux"}, "comb.ff": {"delay": "scalar", "alpha": "aux"},
     "accumulate.func": {"iterable": "source"},
 }
+# methods / calls that hand a stage ANOTHER source (or take another copy) while it may already be running -> hist scenarios
+ATTACH_API = {
+    "Streamix.add": ["Streamix.add"], "Stream.append": ["Stream.append"], "StreamTeeHub.append": ["Stream.append"],
+    "Stream.copy": ["Stream.copy"], "StreamTeeHub.copy": ["StreamTeeHub.copy"], "thub": ["thub.partial"],
+    "LinearFilter.__call__": ["filter.again:fir", "filter.again:iir"], "CascadeFilter.__call__": ["filter.again:cascade"],
+    "ParallelFilter.__call__": ["filter.again:parallel"], "maverage.deque": ["maverage.again"],
+    "ControlStream.value": ["ControlStream", "ControlStream.op", "ControlStream.map", "ControlStream.copy"],
+}
 ELEMENTWISE_EXTRA = ("freq2lag", "lag2freq", "freq_to_lag", "lag_to_freq", "freq2midi", "midi2freq")
 
 
@@ -1161,6 +1170,22 @@ def extra_checks(eng):
         if sorted(params) != sorted(roles):
             bad.append("%s%r is classified as %r" % (name, tuple(params), sorted(roles)))
     yield ("parameters-classified", not bad, "; ".join(bad))
+    # stages that accept a NEW source / consumer while they are consumed: every public method of the stream classes
+    # that takes a source-like argument besides `self` (or copies the object) has a history scenario (`hist` entry)
+    missing = []
+    for name, roles in sorted(PARAMS.items()):
+        cls = name.split(".")[0]
+        if "." in name and cls in ("Stream", "StreamTeeHub", "Streamix") and \
+                (any(r in ("source", "aux") for k, r in roles.items() if k != "self") or name.endswith(".copy")):
+            if not any(h in hist.HOW for h in ATTACH_API.get(name, [])):
+                missing.append(name)
+    for name, hows in sorted(ATTACH_API.items()):
+        if name not in api and name not in ("ControlStream.value",):
+            missing.append(name + " (not public any more)")
+        missing += ["%s -> %s" % (name, h) for h in hows if h not in hist.HOW]
+    for name in sorted(n for n in api if n.split(".")[-1] in ("add", "append", "copy") and n not in ATTACH_API):
+        missing.append(name + " (hands a source / takes a copy, no history scenario)")
+    yield ("attach-api-has-histories", not missing, "; ".join(missing))
     # a registry entry that nothing refers to is not tied to the API
     used = set(e for es in COVER.values() for e in es)
     orphan = sorted(n for n in R if n not in used and n not in ("elementwise",)) + sorted("x:" + n for n in X if "x:" + n not in used)
@@ -1695,7 +1720,8 @@ def generate(rng, tier, scale=1):
         for i in range((12 if quick else 150) * scale):
             cases.append({"entry": "two", "how": how, "na": rng.randint(0, 9), "nb": rng.randint(0, 9),
                           "k": rng.choice([1, 3, 6, 9, 12, 14])})
-    return [c for c in _xattach(_attach(cases)) if not _oversized(c)]
+    cases = [c for c in _xattach(_attach(cases)) if not _oversized(c)]
+    return cases + hist.generate(rng, tier, scale)
 
 
 # ----------------------------------------------------------------------------------------------
@@ -1866,6 +1892,8 @@ CASE_TIMEOUT = 4
 
 def impl(c):
     al = _al()
+    if c["entry"] == "hist":
+        return hist.impl(c, al)
     if c["entry"] in ("reads", "ctl"):
         if "need" not in c or "aux_need" not in c or (c["entry"] == "ctl" and "sched" not in c):
             _attach([c])
@@ -1941,6 +1969,8 @@ def impl(c):
 
 
 def request(c):
+    if c["entry"] == "hist":
+        return hist.request(c)
     if c["entry"] == "ctl":
         return {"entry": "reads", "chain": _model_chain(c), "n": c["need"] + 8, "k": c["k"], "aux": _aux_req(c)}
     if c["entry"] == "reads":
@@ -2040,6 +2070,8 @@ def _diff_ctl(c, io, drv, which):
 
 def compare(c, io, drv):
     out = []
+    if c["entry"] == "hist":
+        return hist.compare(c, io, drv)
     if c["entry"] == "reads":
         if drv["construct"] != 0 or drv["spec0"] != 0:
             out.append(("model", "model reads at construction"))
@@ -2096,6 +2128,8 @@ def compare(c, io, drv):
 
 
 def nontrivial(c, io):
+    if c["entry"] == "hist":
+        return hist.nontrivial(c, io)
     if c["entry"] in ("reads", "ctl"):
         return io.get("outs", 0) > 0
     if c["entry"] == "probe":
@@ -2105,6 +2139,8 @@ def nontrivial(c, io):
 
 def tally(eng, c, io):
     eng.count("entry", c["entry"])
+    if c["entry"] == "hist":
+        return hist.tally(eng, c, io)
     if c["entry"] == "ctl":
         el = c["chain"][0]
         eng.count("ctl_stage", el["st"])
@@ -2252,6 +2288,12 @@ def _param_cands(c):
 
 def shrink(c):
     """Few, strongly smaller candidates per round: single stages first, then k, then parameters."""
+    if c["entry"] == "hist":
+        _SHRINK_CALLS[0] += 1
+        if _SHRINK_CALLS[0] <= SHRINK_BUDGET:
+            for x in hist.shrink(c):
+                yield x
+        return
     if c["entry"] == "probe":
         _SHRINK_CALLS[0] += 1
         if _SHRINK_CALLS[0] > SHRINK_BUDGET:
@@ -2379,6 +2421,8 @@ def neighbours(c):
 
 def classify(c, io, drv):
     """<blamed stage>:<what fails> - coarse on purpose: one signature per stage and failure kind."""
+    if c["entry"] == "hist":
+        return hist.classify(c, io, drv)
     if c["entry"] == "ctl":
         st = c["chain"][0]["st"]
         if "err" in io or "A_err" in io:
